@@ -24,7 +24,7 @@ VARIABLES s, used, last
 vars == <<s, used, last>>
 
 BudgetKeys == {"user.release2", "user.release3", "user.rollback", "user.scale", "user.approve", "user.pause", "user.resume",
-               "user.disable", "user.enable", "user.delete", "user.editplan", "user.jump", "user.editidle", "user.deleteidle", "user.release3late", "user.trdelete", "env.unready", "total"}
+               "user.disable", "user.enable", "user.delete", "user.editplan", "user.jump", "user.editidle", "user.deleteidle", "user.release3late", "user.trdelete", "user.switchstyle", "env.unready", "total"}
 
 ClassOf(a) == IF a \in JumpActs THEN "user.jump" ELSE a
 IsDisturbance(c) == c \in BudgetKeys /\ c \notin {"user.release2", "user.approve", "env.unready", "total"}
@@ -49,6 +49,7 @@ UserEnabled(st, a) ==
        [] a = "user.editplan" -> inProg /\ Len(Plan2) > 0
        [] a = "user.editidle" -> st.ro.phase = "Healthy" /\ ~st.ro.deleting /\ Len(Plan2) > 0
        [] a = "user.deleteidle" -> st.ro.phase = "Healthy" /\ ~st.ro.deleting
+       [] a = "user.switchstyle" -> st.ro.phase = "Healthy" /\ ~st.ro.deleting /\ ~st.ro.bg
        [] a = "user.trdelete" -> st.tr.used /\ st.tr.exists /\ ~st.tr.deleting
        [] a \in JumpActs -> inProg /\ st.ro.hasSub /\ JumpTarget(a) # st.ro.next
        [] OTHER -> FALSE
